@@ -77,22 +77,22 @@ SYMBOLS = ["Unset", "Root", "NotEmpty"]
 # theorem names (lean/Proofs/ClassTable.lean, namespace Flatland.ClassTable) per property id
 _P = "Flatland.ClassTable."
 OBLIGATIONS = {
-    "C01": ["flat_flags_agree", "flat_flags_table", "flat_kinds_cover", "list_ceiling_default",
+    "C01": ["resolve_flags", "flat_flags_agree", "flat_flags_table", "flat_kinds_cover", "list_ceiling_default",
             "sequence_prune_default", "optional_default"],
-    "C02": ["flat_flags_agree", "flat_flags_table", "flat_kinds_cover", "list_ceiling_default",
+    "C02": ["resolve_flags", "flat_flags_agree", "flat_flags_table", "flat_kinds_cover", "list_ceiling_default",
             "sequence_prune_default", "optional_default"],
-    "C07": ["flat_flags_agree", "flat_flags_table", "flat_kinds_cover", "flags_closed_under_mro"],
+    "C07": ["resolve_flags", "flat_flags_agree", "flat_flags_table", "flat_kinds_cover", "flags_closed_under_mro"],
     "C03": ["dict_policy_default", "sparse_minimum_default", "optional_default"],
-    "C04": ["boolean_default_agrees", "scalar_strip_defaults", "number_defaults", "temporal_triples_agree",
+    "C04": ["boolean_default_agrees", "boolean_default_coherent", "boolean_synonyms_pinned", "scalar_strip_defaults", "number_defaults", "temporal_triples_agree",
             "joined_defaults"],
     "C05": ["validates_agree", "validateUp_reads", "validateDown_reads", "validate_definers", "c05_kinds_agree",
             "sentinel_truthiness", "sentinels_distinct"],
     "C06": ["c06_kind_has_agrees", "c06_builtin_defaults"],
-    "C08": ["tree_kinds_agree", "tree_defaults_agree", "tree_is_empty_definers", "list_slot_type"],
+    "C08": ["tree_kinds_agree", "tree_defaults_agree", "tree_is_empty_definers", "isEmpty_dict", "isEmpty_members", "list_slot_type"],
     "C09": ["tree_kinds_agree", "tree_defaults_agree", "list_slot_type"],
     "C10": ["tree_kinds_agree", "tree_defaults_agree", "tree_is_empty_definers", "sparse_minimum_default",
             "dict_policy_default"],
-    "C12": ["flat_flags_table", "flat_kinds_cover", "boolean_default_agrees"],
+    "C12": ["flat_flags_table", "flat_kinds_cover", "boolean_synonyms_pinned"],
     "C13": ["tree_kinds_agree"],
     "C18": ["joined_defaults", "ref_defaults", "temporal_triples_agree", "number_defaults", "scalar_strip_defaults"],
     "C20": ["dict_policy_default", "scalar_strip_defaults", "optional_default"],
